@@ -195,6 +195,16 @@ def oracle(c, r, p):
     p_user = 1 if c["trans"] == 0 else "inf"
     p_AA = p_user if c["stype"] == 0 else (1 if p_user == "inf" else "inf")
     check_rcond(rcond, p_AA, "p%sgssvx(%s,%s)" % (p, "NC" if c["stype"] == 0 else "NR", TRANS_NAME[c["trans"]]))
+    # the factors reused (fact = FACTORED) for the other transpose, fresh rcond variable: same bounds, in the norm of THAT system
+    if r.get("factored2") is not None and info == 0:
+        t2, rc2, inf2 = r["factored2"]
+        if rc2 != rc2 or rc2 < 0:
+            fails.append(("rcond-stale", "fact = FACTORED re-solve (%s): rcond = %r was not computed (the caller's variable held -1)" % (TRANS_NAME[t2], rc2)))
+        else:
+            p_user2 = 1 if t2 == 0 else "inf"
+            check_rcond(rc2, p_user2 if c["stype"] == 0 else (1 if p_user2 == "inf" else "inf"), "FACTORED re-solve p%sgssvx(%s)" % (p, TRANS_NAME[t2]))
+            if inf2 != (n + 1 if rc2 < eps else 0):
+                fails.append(("info-nplus1", "FACTORED re-solve: info = %d but rcond = %r, eps = %r" % (inf2, rc2, eps)))
     # ?gscon called directly, every norm letter
     for letter, (an, rc, inf2) in sorted(r["direct"].items()):
         pl = 1 if letter in "1Oo" else "inf"
